@@ -81,7 +81,8 @@ func planMarkers(c *Ctx, fr *Frame) map[string]bool {
 			if li.F != fr || len(in.Results) == 0 {
 				continue
 			}
-			last := in.Results[len(in.Results)-1]
+			res := retResults(in)
+			last := res[len(res)-1]
 			if isFreshError(last) {
 				out["ERROR"] = true
 			}
@@ -284,7 +285,8 @@ func checkC05(c *Ctx, r *Report) {
 		if !ok || len(ret.Results) != 2 {
 			continue
 		}
-		if k, ok := ret.Results[0].(*ssa.Const); ok && k.IsNil() {
+		res := retResults(ret)
+		if k, ok := res[0].(*ssa.Const); ok && k.IsNil() {
 			continue // error return
 		}
 		sorted++
@@ -301,7 +303,7 @@ func checkC05(c *Ctx, r *Report) {
 			if mi, ok := arg.(*ssa.MakeInterface); ok {
 				arg = mi.X
 			}
-			if sameValue(arg, ret.Results[0]) && instrDominates(call, ret) {
+			if sameValue(arg, res[0]) && instrDominates(call, ret) {
 				okS = true
 			}
 		})
@@ -459,6 +461,11 @@ func reachesCollisionReturn(start *ssa.BasicBlock, avoid ssa.Instruction, collis
 					for _, ref := range *call.Referrers() {
 						if _, ok := ref.(*ssa.Return); ok {
 							return true
+						}
+						if st, ok := ref.(*ssa.Store); ok {
+							if _, isAl := st.Addr.(*ssa.Alloc); isAl {
+								return true // defer-spilled result cell
+							}
 						}
 					}
 				}
